@@ -331,7 +331,7 @@ func c14MultiRefusal(c *Ctx) {
 func rootsPerValue(c *Ctx, rule string) {
 	p := c.P
 	c.note("%s roots-per-value: in EvalProgram the slice of root cells that the per-root loop ranges over is created (make) inside the decode loop, after the Decode call of the current value, and is filled by appending, in selector order, the result of EvalExpression(selector, the decoded value) — or the single cell of the decoded value when there are no selectors. A list that outlives the value re-processes roots of earlier values.", rule)
-	ep := p.LangFunc("EvalProgram")
+	ep := p.DriverFunc()
 	if ep == nil {
 		c.undecided(rule, "EvalProgram", "", "anchor not found")
 		return
